@@ -48,8 +48,8 @@ def main(argv):
         ev = {"property_id": prop, "tier": tier, "seed": seed, "level": "other",
               "coverage": {"explanation": "checker crashed: %s: %s" % (type(ex).__name__, ex), "evaluations": 1, "distinct_nontrivial": 2},
               "assumptions": [], "wall_s": round(time.time() - t0, 2), "violations": 0}
-        os.makedirs(os.path.join(nssvc.VERIF, "evidence"), exist_ok=True)
-        with open(os.path.join(nssvc.VERIF, "evidence", "%s.json" % prop), "w") as f:
+        os.makedirs(nssvc.EVDIR, exist_ok=True)
+        with open(os.path.join(nssvc.EVDIR, "%s.json" % prop), "w") as f:
             json.dump(ev, f, indent=1)
         return EXIT_CRASH
 
